@@ -30,8 +30,7 @@ def gen_case(rng, tier):
         adf = 100
     maxn = adf * adf * rng.choice([1, 1, 2]) + rng.randrange(0, 2 * adf + 5) if rng.random() < 0.35 else rng.choice(
         [0, 1, 2, adf - 1, adf, adf + 1, 2 * adf, 2 * adf + 1, 3 * adf + rng.randrange(0, adf), adf * adf - 1, adf * adf, adf * adf + 1])
-    if tier == "quick":
-        maxn = min(maxn, 1300)
+    maxn = min(maxn, 1300 if tier == "quick" else 2600)      # (20000 annotations x 250 seeks per case made the thorough tier hold > 36 GB)
     n = maxn
     # timestamps: non-decreasing with runs of equal values, placed so that runs straddle index-chunk boundaries
     ts = []
@@ -59,7 +58,7 @@ def gen_case(rng, tier):
     for k, tk in enumerate(ts):
         st = rng.choice([1, 2, 3])
         size = rng.choice([0, 1, 2, 7, 8, 9, 100, 3000]) if st == 1 else rng.choice([0, 1, 5, 40])
-        if tier == "quick" and n > 200:
+        if n > 200:
             size = min(size, 9)
         pay = "g%d.%d" % (size, seed + k) if (size or st != 1) else rng.choice(["e", "g0.1"])
         y = rng.choice(["3f800000", "7fc00000", "00000000", "c2f70000", "42280000"])
@@ -74,7 +73,7 @@ def gen_case(rng, tier):
             seeks.append(rel[j] + rng.choice([0, 0, 0, -1, 1]))
         # every chunk boundary
         for b in range(adf, len(rel), adf):
-            if rng.random() < 0.5:
+            if rng.random() < 0.5 and len(seeks) < 90:
                 seeks.append(rel[b])
                 seeks.append(rel[b - 1])
     for sk in seeks:
@@ -95,7 +94,7 @@ def classify(script, meta, mism):
 
 def run(ctx):
     return proglib.run_prog_property(
-        ctx, PROP_FILES, gen_case, ("anno",), 150, 1500,
+        ctx, PROP_FILES, gen_case, ("anno",), 150, 700,
         "case = 0..(decimation^2+) annotations on signal 0 or an FSR signal (annotation decimation 10/11/13/100 so that 1-3 index levels exist; first "
         "sample id 0/5/-7/1000/2^40), non-decreasing timestamps with runs of equal timestamps aligned to straddle index-chunk boundaries, all storage "
         "types, payload sizes 0..3000; then iteration from timestamps before the first / equal / between / after the last / at every chunk boundary, and "
